@@ -29,8 +29,29 @@ CHECK_DEADLOCK FALSE
 def c19(ctx):
     q = ctx.quick
     ops, horizon = (4, 7) if q else (6, 9)
-    inv = "C19_Runs C19_NoLeak C19_ArmedIsCurrent"
+    inv = "C19_Runs C19_NoLeak C19_ArmedIsCurrent C19_Ind"
     behs = []
+    # the design, unbounded: an inductive invariant discharged by Apalache (spec/TimerInd.tla); with the defect class of the
+    # implementation as found (NoGen) the induction must fail
+    apa = {}
+    for name, args, want in (("base", "--cinit=CInit --init=Init --inv=IndInv --length=0", True),
+                             ("step", "--cinit=CInit --init=IndInit --inv=IndInv --length=1", True),
+                             ("props", "--cinit=CInit --init=IndInit --inv=Props --length=0", True),
+                             ("step_NoGen", "--cinit=CInitNoGen --init=IndInit --inv=IndInv --length=1", False)):
+        d = M.tlc_dir(ctx, "apa_" + name)
+        rc, out = M.sh(["apalache-mc", "check"] + args.split() + ["TimerInd.tla"], cwd=d, timeout=900)
+        ok = "EXITCODE: OK" in out
+        err = "EXITCODE: ERROR (12)" in out
+        if rc == 124 or not (ok or err):
+            raise M.Inconclusive("apalache run %s did not finish (see %s)" % (name, d))
+        apa[name] = ok
+        shutil.rmtree(os.path.join(d, "_apalache-out"), ignore_errors=True)
+        if ok != want:
+            raise M.Inconclusive("apalache obligation %s: expected %s, got %s (model or invariant is wrong; see %s)" % (name, want, ok, d))
+    ctx.extra["inductive_invariant_apalache"] = {"module": "TimerInd.tla", "obligations": apa,
+                                                 "meaning": "Init => IndInv; IndInv /\\ Next => IndInv'; IndInv => C19_Runs /\\ C19_ArmedIsCurrent /\\ C19_NoLeak, "
+                                                            "for unbounded time, generations, period and numbers of calls (at most 3 fired goroutines in flight); "
+                                                            "the step must FAIL with NoGen"}
     # the invariants are not vacuous: the defect class of the implementation as found (a tick that fired before a Stop or
     # Refresh still acts) and a Stop that leaves the runtime timer armed must violate them
     sens = {}
